@@ -421,27 +421,27 @@ THEOREM InterFinal == InterInv /\ ~(i <= Len(a)) => Ascending(out) /\ Set(out) =
 (* it smaller and everything from it on larger (model-checked:             *)
 (* HpoGroupAlgo!SearchSound); `Vec::insert(k, x)` shifts the tail by one.   *)
 (***************************************************************************)
-InsertAt(s, k, x) == [m \in 1..(Len(s) + 1) |-> IF m < k THEN s[m] ELSE IF m = k THEN x ELSE s[m - 1]]
+VecInsert(s, k, x) == [m \in 1..(Len(s) + 1) |-> IF m < k THEN s[m] ELSE IF m = k THEN x ELSE s[m - 1]]
 
 THEOREM InsertKeepsOrder ==
   ASSUME NEW s \in Seq(Nat), Ascending(s), NEW x \in Nat, NEW k \in 1..(Len(s) + 1),
          \A m \in 1..(k - 1) : s[m] < x,
          \A m \in k..Len(s) : x < s[m]
-  PROVE  /\ InsertAt(s, k, x) \in Seq(Nat)
-         /\ Len(InsertAt(s, k, x)) = Len(s) + 1
-         /\ Ascending(InsertAt(s, k, x))
-         /\ Set(InsertAt(s, k, x)) = Set(s) \cup {x}
-<1> DEFINE t == InsertAt(s, k, x)
+  PROVE  /\ VecInsert(s, k, x) \in Seq(Nat)
+         /\ Len(VecInsert(s, k, x)) = Len(s) + 1
+         /\ Ascending(VecInsert(s, k, x))
+         /\ Set(VecInsert(s, k, x)) = Set(s) \cup {x}
+<1> DEFINE t == VecInsert(s, k, x)
 <1>0. Len(s) \in Nat
   OBVIOUS
 <1>1. t \in Seq(Nat) /\ Len(t) = Len(s) + 1
   <2>1. \A m \in 1..(Len(s) + 1) : (IF m < k THEN s[m] ELSE IF m = k THEN x ELSE s[m - 1]) \in Nat
     OBVIOUS
   <2>2. t \in [1..(Len(s) + 1) -> Nat]
-    BY <2>1 DEF InsertAt
-  <2> QED BY <1>0, <2>2 DEF InsertAt
+    BY <2>1 DEF VecInsert
+  <2> QED BY <1>0, <2>2 DEF VecInsert
 <1>2. \A m \in 1..(Len(s) + 1) : t[m] = (IF m < k THEN s[m] ELSE IF m = k THEN x ELSE s[m - 1])
-  BY DEF InsertAt
+  BY DEF VecInsert
 <1>3. Ascending(t)
   <2> SUFFICES ASSUME NEW p \in 1..Len(t), NEW q \in 1..Len(t), p < q PROVE t[p] < t[q]
     BY DEF Ascending
